@@ -238,6 +238,31 @@ def check_single(ctx, case):
                 for T in temps_for([eff])[:6]:
                     for X in PROPS:
                         judge(ctx, 'single-after-copy-stripped:%r' % (spec,), obj, [spec], X, T, 'single correlation %s after its copy was stripped' % _short(spec))
+    # the valid range is the one the correlation reports NOW: after it was narrowed through the public set_range(), temperatures
+    # between the old and the new bounds (all of them asked for above, while they were still inside) are outside
+    if want is not None and spec['Ts'] and want[1] - want[0] > 8 and status in ('refused', 'no-conflict-possible'):
+        w = want[1] - want[0]
+        if (len(spec['Ts']) + int(w)) % 3:
+            new = (want[0] + w / 4.0, want[1] - w / 4.0)
+        else:
+            # ... and after it was widened, temperatures between the old and the new bounds are inside
+            new = (want[0] / 2.0, want[1] + w / 4.0)
+            ctx.event('range-widened')
+        try:
+            obj.set_range(new)
+            got = obj.get_range()
+        except Exception as e:
+            ctx.event('set_range-raised:%s' % type(e).__name__)
+        else:
+            ctx.count()
+            ctx.event('range-narrowed')
+            if got is None or tuple(got) != new:
+                ctx.fail('single-get_range-after-set_range', 'get_range() = %r after set_range(%r)' % (got, new))
+            else:
+                spec2 = dict(spec, range=list(new))
+                for T in sorted(set(temps_for([eff])[:12] + temps_for([new])[:12] + [want[0], want[1]])):
+                    for X in PROPS:
+                        judge(ctx, 'single-after-narrowing:%r' % (spec2,), obj, [spec2], X, T, 'single correlation %s after set_range(%r)' % (_short(spec), new))
 
 
 def _short(s):
